@@ -22,7 +22,10 @@ import itertools
 import math
 from fractions import Fraction as F
 
-import numpy as np
+import os
+for _v in ('OMP_NUM_THREADS', 'OPENBLAS_NUM_THREADS', 'MKL_NUM_THREADS'):
+    os.environ.setdefault(_v, '2')   # small matrices only: BLAS threading is pure overhead here
+import numpy as np  # noqa: E402
 
 from common import Stream, budget, rng_for, show
 
@@ -38,13 +41,13 @@ ASSUMPTIONS = [
 ]
 OPEN_STATEMENTS = [
     'givens_reconstruct / square_reconstruct (V Q U^dagger = (D|0) for all isometries, as a Lean theorem about the numeric '
-    'Model): not proved; covered by the reconstruction oracle.  Proved instead: the complete schedule characterisation '
-    '(adjacency, disjointness, depth, coverage, order = zero-persistence at the index level) and the 2x2 element identities.',
+    'Model): not proved as a whole; covered by the reconstruction oracle.  Proved instead: the complete schedule '
+    'characterisation (adjacency, disjointness, depth, coverage, order = zero-persistence at the index level), the 2x2 element '
+    'identities, that every elementary column step zeroes its target entry and keeps pairs of zeros (numeric level), and the '
+    'layer structure of everything the three numeric decompositions emit.  Missing for the full theorem: the induction over '
+    'the sweep combining these, and the orthonormality argument for the lower-left part.',
     'gaussian_reconstruct (V W U^dagger = (0|D)) : not proved; FALSE on the real code when the left N x N block of W is '
     'singular (known finding F11, kernel-checked counterexample on the Model); open for a non-singular left block.',
-    'gaussian_emitted_structure (layers emitted by the Model of fermionic_gaussian_decomposition are sub-layers of gaussLayer, '
-    'depth <= 2N-1): proved for the schedule (gauss_schedule_*) but not lifted to the numeric loop (done for square / givens); '
-    'the structure oracle checks it on every returned decomposition.',
     'givens_matrix_elements_sound is stated in the exact regime (entries / imaginary parts below EQ_TOLERANCE are exactly 0); '
     'behaviour for 0 < |x| < 1e-8 is outside the theorem.',
 ]
@@ -741,9 +744,9 @@ def stream_structured(ctx):
                'always_insert in {False, True}: Model comparison (indices exact, parameters / V / diagonals 1e-9) and '
                'reconstruction + structure oracles; distinct = distinct (function, matrix, always_insert)')
     rng = rng_for(ctx.seed, 'c11-structured')
-    nsq = budget(ctx.tier, 250, 1500)
-    ngi = budget(ctx.tier, 400, 2500)
-    nga = budget(ctx.tier, 450, 3000)
+    nsq = budget(ctx.tier, 250, 5000)
+    ngi = budget(ctx.tier, 400, 8000)
+    nga = budget(ctx.tier, 450, 9000)
     if ctx.drift:
         nsq, ngi, nga = max(nsq, 500), max(ngi, 800), max(nga, 900)
     cases = []
